@@ -128,6 +128,25 @@ def runStallC (t : List String) : String := match t with
     ",".intercalate (s.calls.map fun cl => match cl.state with | .done _ => "ok" | .timedOut => "timeout" | .waiting => "waiting")
   | _ => "bad-op"
 
+/-- `rqmany <n>`: n calls nobody answers time out, and so does one more — the calls that went unanswered leave nothing
+    behind that a later call would have to wait for (`Rq`: the pending map is unbounded, a call needs only its own id);
+    afterwards three calls are answered (`c04_own_reply`) -/
+def runMany (t : List String) : String := match t with
+  | [n] =>
+    let text := fun (st : Option CallState) => match st with | some (.done _) => "ok" | some .timedOut => "timeout" | _ => "waiting"
+    let s := (List.range (nat! n)).foldl (fun (s : Rq) _ => s.call) (Rq.run [])
+    let s := (List.range (nat! n)).foldl (fun (s : Rq) i => s.timeoutIfArmed Selium.Gen.Client.requestTimeoutCoversSend (fun _ => true) i) s
+    let first := if s.calls.all (fun cl => match cl.state with | .timedOut => true | _ => false) then "timeout" else "mixed"
+    let s := (s.call).timeoutIfArmed Selium.Gen.Client.requestTimeoutCoversSend (fun _ => true) (nat! n)
+    let more := text ((s.calls[nat! n]?).map (·.state))
+    let step := fun (acc : Rq × List String) (k : Nat) =>
+      let id := nat! n + 1 + k
+      let s' := (acc.1.call).arrive { reqId := some id, payload := [] }
+      (s', acc.2 ++ [text ((s'.calls[id]?).map (·.state))])
+    let r := (List.range 3).foldl step (s, [])
+    first ++ " | " ++ more ++ " | " ++ ",".intercalate r.2
+  | _ => "bad-op"
+
 /-- `rqstall <n> <kib>`: no reply ever arrives: every call times out (`c04_timeout`), one after the other -/
 def runStall (t : List String) : String :=
   match t with
